@@ -74,11 +74,11 @@ Qed.
 
 Theorem question_complete_gen p index buffer d ls n t c : wf p -> bytes_ok (arr p) -> (12 <= len p)%nat ->
   u16_at (view p) 4 = Some 1 ->
-  name_at_d (view p) d index ls n -> (d <= 254)%nat -> (wire_len ls <= 256)%nat ->
+  name_at_d (view p) d index ls n -> (d <= 254)%nat -> (wire_len ls <= 255)%nat -> Forall dotfree ls ->
   u16_at (view p) n = Some t -> u16_at (view p) (n + 2) = Some c ->
   decodeQuestion p (Z.of_nat index) buffer = Ok (mkQ (dotted ls) t c, (n + 4)%nat).
 Proof.
-  intros Hwf Hok H12 Hqd Hna Hd Hw Ht Hc.
+  intros Hwf Hok H12 Hqd Hna Hd Hw Hdf Ht Hc.
   destruct (name_at_d_next _ _ _ _ _ Hna) as [Hn1 _]. unfold decodeQuestion. pose proof Hwf as Hwf'. unfold wf in Hwf'.
   rewrite be16_at_ok by lia. cbn [bind].
   apply u16_at_view in Hqd as [_ Hqd]; auto. rewrite Hqd. cbn [negb N.eqb Pos.eqb].
@@ -86,7 +86,7 @@ Proof.
   destruct (Z.ltb_spec (Z.of_nat (len p)) (Z.of_nat index + 5)); [lia|].
   unfold decodeNameZ. destruct (Z.leb_spec (Z.of_nat (len p)) (Z.of_nat index)); [lia|].
   destruct (Z.ltb_spec (Z.of_nat index) 0); [lia|]. rewrite Nat2Z.id.
-  destruct (name_complete p d index ls n (buf_of buffer) Hwf Hok Hna Hd Hw) as (b' & Hr). rewrite Hr.
+  destruct (name_complete p d index ls n (buf_of buffer) Hwf Hok Hna Hd Hw Hdf) as (b' & Hr). rewrite Hr.
   cbn [bind fst snd]. destruct (Nat.ltb_spec (len p) (n + 4)); [lia|].
   rewrite !be16_at_ok by lia. cbn [bind]. rewrite Ht.
   replace (n + 2 + 1)%nat with (n + 3)%nat in Hc by lia.
@@ -97,7 +97,7 @@ Qed.
    root-name question is decoded too (repair of DecodeQuestion's 6-byte pre-check) *)
 Theorem question_complete p index buffer d ls n t c : wf p -> bytes_ok (arr p) -> (12 <= len p)%nat ->
   u16_at (view p) 4 = Some 1 ->
-  name_at_d (view p) d index ls n -> (d <= 254)%nat -> (wire_len ls <= 256)%nat ->
+  name_at_d (view p) d index ls n -> (d <= 254)%nat -> (wire_len ls <= 255)%nat -> Forall dotfree ls ->
   u16_at (view p) n = Some t -> u16_at (view p) (n + 2) = Some c ->
   decodeQuestion p (Z.of_nat index) buffer = Ok (mkQ (dotted ls) t c, (n + 4)%nat).
 Proof. exact (question_complete_gen p index buffer d ls n t c). Qed.
@@ -166,7 +166,14 @@ Qed.
 (* PTR owner: the library reads the dotted text (TrimSuffix + netip.ParseAddr), the reference the
    labels.  They agree whenever no label of the owner contains a '.' octet. *)
 
-Definition dotfree (l : bytes) : Prop := ~ In 46 l.
+Lemma presentable_dotfree ls : presentable ls = true -> Forall dotfree ls.
+Proof.
+  unfold presentable. rewrite forallb_forall, Forall_forall. intros H l Hl. specialize (H l Hl).
+  apply negb_true_iff in H. apply existsb_dot. exact H.
+Qed.
+
+Lemma name_ok_inv lim ls : name_ok lim ls = true -> (wire_len ls <= lim)%nat /\ Forall dotfree ls.
+Proof. unfold name_ok. intros H. apply andb_true_iff in H as [H1 H2]. apply Nat.leb_le in H1. split; [exact H1|apply presentable_dotfree; exact H2]. Qed.
 
 Lemma split_dots_nonempty s : split_dots s <> [].
 Proof.
@@ -294,29 +301,28 @@ Qed.
 Definition depth_at (msg : bytes) (off : nat) : nat := ref_depth (S (length msg)) msg off.
 
 Lemma rr_name_complete p off buffer ls n : wf p -> bytes_ok (arr p) ->
-  ref_decode (view p) off = Some (ls, n) -> (wire_len ls <= 256)%nat -> (depth_at (view p) off <= 254)%nat ->
+  ref_decode (view p) off = Some (ls, n) -> (wire_len ls <= 255)%nat -> Forall dotfree ls -> (depth_at (view p) off <= 254)%nat ->
   rr_decode_name p off buffer = Ok (dotted ls, n).
 Proof.
-  intros Hwf Hok H Hw Hd. apply ref_decode_depth in H; [|apply bytes_ok_view; exact Hok].
-  destruct (name_complete p _ off ls n (buf_of buffer) Hwf Hok H Hd Hw) as (b' & Hr).
+  intros Hwf Hok H Hw Hdf Hd. apply ref_decode_depth in H; [|apply bytes_ok_view; exact Hok].
+  destruct (name_complete p _ off ls n (buf_of buffer) Hwf Hok H Hd Hw Hdf) as (b' & Hr).
   unfold rr_decode_name. rewrite Hr. reflexivity.
 Qed.
 
 Lemma rr_step_spec p buffer off e r nx lim :
-  wf p -> bytes_ok (arr p) -> (lim <= 256)%nat ->
+  wf p -> bytes_ok (arr p) -> (lim <= 255)%nat ->
   ref_rr_at lim (view p) off = Some (r, nx) ->
   (depth_at (view p) off <= 254)%nat ->
   (rr_type r = 5 \/ rr_type r = 12 -> (depth_at (view p) (rr_rdoff r) <= 254)%nat) ->
-  (rr_type r = 12 -> Forall dotfree (rr_owner r)) ->
   learn lim (view p) r <> LBad ->
   exists u e', rr_step p buffer off e = (Ok (nx, u, e'), e') /\
                learn_into (cache_of_entry e) (learn lim (view p) r) = (cache_of_entry e', u) /\
                de_name e' = de_name e.
 Proof.
-  intros Hwf Hok Hlim H Hd Hd5 Hdot Hbad. pose proof Hwf as Hwf'. unfold wf in Hwf'.
+  intros Hwf Hok Hlim H Hd Hd5 Hbad. pose proof Hwf as Hwf'. unfold wf in Hwf'.
   unfold ref_rr_at in H.
   destruct (ref_decode (view p) off) as [[ls n]|] eqn:Hdec; [|discriminate].
-  destruct (Nat.leb_spec (wire_len ls) lim) as [Hw|]; [|discriminate].
+  destruct (name_ok lim ls) eqn:Hnok; [|discriminate]. apply name_ok_inv in Hnok as [Hw Hdot].
   destruct (u16_at (view p) n) as [t|] eqn:Ht; [|discriminate].
   destruct (u16_at (view p) (n + 2)) as [c|] eqn:Hc; [|discriminate].
   destruct (u32_at (view p) (n + 4)) as [ttl|] eqn:Httl; [|discriminate].
@@ -357,18 +363,18 @@ Proof.
     rewrite Hs. reflexivity. }
   destruct (N.eqb_spec t 5) as [->|T5].
   { destruct (ref_decode (view p) (n + 10)) as [[cls cn]|] eqn:Hc5; [|contradiction].
-    destruct (Nat.leb_spec (wire_len cls) lim) as [Hwc|]; [|contradiction].
+    destruct (name_ok lim cls) eqn:Hcok; [|contradiction]. apply name_ok_inv in Hcok as [Hwc Hcdf].
     rewrite (rr_name_complete p (n + 10) buffer cls cn) by (auto; try lia; apply Hd5; auto).
     pose proof (ins_name_spec (dotted ls) (dotted cls) ttl (de_cname e)) as Hs. cbv zeta in Hs.
     destruct (ins_name _ (de_cname e)) as [l u] eqn:Hi. cbn [fst snd] in Hs.
     exists u. eexists. split; [reflexivity|]. split; [|reflexivity]. cbn [learn_into]. unfold cache_of_entry at 1. cbn [c_cname].
     rewrite Hs. reflexivity. }
   destruct (N.eqb_spec t 12) as [->|T12].
-  { rewrite ptr_owner_spec by (apply Hdot; reflexivity).
+  { rewrite ptr_owner_spec by exact Hdot.
     destruct (reverse_v4 ls) as [ip|] eqn:R; cbn [option_map].
     - destruct (reverse_v4_shape _ _ R) as (a4 & b4 & c4 & d4 & ->). cbn [rev app].
       destruct (ref_decode (view p) (n + 10)) as [[pls pn]|] eqn:Hp12; [|contradiction].
-      destruct (Nat.leb_spec (wire_len pls) lim) as [Hwp|]; [|contradiction].
+      destruct (name_ok lim pls) eqn:Hpok; [|contradiction]. apply name_ok_inv in Hpok as [Hwp Hpdf].
       rewrite (rr_name_complete p (n + 10) buffer pls pn) by (auto; try lia; apply Hd5; auto).
       pose proof (ins_ptr_spec (dotted pls) [a4; b4; c4; d4] ttl (de_ptr e)) as Hs. cbv zeta in Hs.
       destruct (ins_ip ir_name _ (de_ptr e)) as [l u] eqn:Hi. cbn [fst snd] in Hs.
@@ -389,13 +395,12 @@ Fixpoint rrs_within (lim : nat) (count : nat) (msg : bytes) (off : nat) : Prop :
       | Some (r, nx) =>
           (depth_at msg off <= 254)%nat /\
           (rr_type r = 5 \/ rr_type r = 12 -> (depth_at msg (rr_rdoff r) <= 254)%nat) /\
-          (rr_type r = 12 -> Forall dotfree (rr_owner r)) /\
           rrs_within lim c msg nx
       | None => True
       end
   end.
 
-Lemma decodeRRs_loop_spec p buffer lim : wf p -> bytes_ok (arr p) -> (lim <= 256)%nat ->
+Lemma decodeRRs_loop_spec p buffer lim : wf p -> bytes_ok (arr p) -> (lim <= 255)%nat ->
   forall count off u e rrs endoff,
     ref_rrs lim count (view p) off = Some (rrs, endoff) ->
     rrs_within lim count (view p) off ->
@@ -409,9 +414,9 @@ Proof.
   - destruct (ref_rr_at lim (view p) off) as [[r nx]|] eqn:Hr; [|discriminate].
     destruct (ref_rrs lim c (view p) nx) as [[l e2]|] eqn:Hrest; [|discriminate].
     inversion H; subst rrs endoff; clear H. cbn [rrs_within] in Hsh. rewrite Hr in Hsh.
-    destruct Hsh as (Hd & Hd5 & Hdot & Hsh).
+    destruct Hsh as (Hd & Hd5 & Hsh).
     inversion Hbad as [|? ? Hba Hbb]; subst.
-    destruct (rr_step_spec p buffer off e r nx lim Hwf Hok Hlim Hr Hd Hd5 Hdot Hba) as (u1 & e1 & Hstep & Hlearn & Hn1).
+    destruct (rr_step_spec p buffer off e r nx lim Hwf Hok Hlim Hr Hd Hd5 Hba) as (u1 & e1 & Hstep & Hlearn & Hn1).
     rewrite Hstep.
     destruct (IH nx (u || u1) e1 l e2 Hrest Hsh Hbb) as (u' & e' & Hloop & Hall & Hn').
     exists u', e'. split; [exact Hloop|]. split; [|congruence]. cbn [map learn_all]. rewrite Hlearn. exact Hall.
@@ -423,7 +428,7 @@ Qed.
    exactly what the reference learns, merged first-wins into what it held, the flag telling
    whether anything was added. *)
 Theorem answers_spec p off buffer e lim an rrs endoff :
-  wf p -> bytes_ok (arr p) -> (12 <= len p)%nat -> (lim <= 256)%nat ->
+  wf p -> bytes_ok (arr p) -> (12 <= len p)%nat -> (lim <= 255)%nat ->
   u16_at (view p) 6 = Some an ->
   ref_rrs lim (N.to_nat an) (view p) off = Some (rrs, endoff) ->
   rrs_within lim (N.to_nat an) (view p) off ->
@@ -475,7 +480,7 @@ Proof.
     repeat split; try (vm_compute; lia); try (intros; vm_compute; lia);
       try (intros [H|H]; vm_compute in H; discriminate);
       try (intros H; vm_compute in H; discriminate).
-    intros _. repeat constructor; intros H; vm_compute in H; repeat (destruct H as [H|H]; [discriminate|]); exact H. }
+    all: try (intros; vm_compute; lia). }
   split; [repeat constructor; vm_compute; discriminate|].
   split; vm_compute; reflexivity.
 Qed.
@@ -550,7 +555,7 @@ Definition msg_within (lim : nat) (msg : bytes) : Prop :=
    back (the merged entry when something was added, nothing otherwise), and the table afterwards is
    the reference table: reference learning merged insert-if-absent into the previous table. *)
 Theorem processdns_table t p lim rm :
-  wf p -> bytes_ok (arr p) -> (lim <= 256)%nat ->
+  wf p -> bytes_ok (arr p) -> (lim <= 255)%nat ->
   ref_message lim (view p) = Some rm -> msg_within lim (view p) ->
   exists re, fst (processDNS t p) = Ok re /\
              option_map named_of re = fst (ref_process (ctable_of t) rm) /\
@@ -568,14 +573,14 @@ Proof.
   inversion Hm; subst rm; clear Hm. apply not_bad_forall in Hbad.
   unfold ref_question_at in Hq.
   destruct (ref_decode (view p) 12) as [[ls n]|] eqn:Hdec; [|discriminate].
-  destruct (Nat.leb_spec (wire_len ls) lim) as [Hw|]; [|discriminate].
+  destruct (name_ok lim ls) eqn:Hnok; [|discriminate]. apply name_ok_inv in Hnok as [Hw Hqdf].
   destruct (u16_at (view p) n) as [ty|] eqn:Hty; [|discriminate].
   destruct (u16_at (view p) (n + 2)) as [cl|] eqn:Hcl; [|discriminate].
   inversion Hq; subst q off; clear Hq. cbn [rq_name].
   apply ref_decode_depth in Hdec; [|apply bytes_ok_view; exact Hok].
   unfold processDNS, processDNS_buf. destruct (Nat.ltb_spec (len p) 12); [lia|].
   change 12%Z with (Z.of_nat 12).
-  rewrite (question_complete_gen p 12 _ _ ls n ty cl Hwf Hok ltac:(lia) Hqd Hdec Hdq ltac:(lia) Hty Hcl).
+  rewrite (question_complete_gen p 12 _ _ ls n ty cl Hwf Hok ltac:(lia) Hqd Hdec Hdq ltac:(lia) Hqdf Hty Hcl).
   cbn [q_name]. unfold ref_process. cbn [rm_qname rm_learned]. rewrite tfind_ctable.
   set (e0 := match tbl_find (dotted ls) t with Some e => e | None => new_entry (dotted ls) end).
   assert (He0 : de_name e0 = dotted ls).
